@@ -59,9 +59,10 @@ def evaluate_case(text, asg, covered=False, big=False):
     return r['abs'], list(log)
 
 
-def evaluate_reused(text, asgs):
+def evaluate_reused(text, asgs, start='zeros'):
     """ONE model and ONE evaluator for the formula; the truth assignments are applied one after the other with
-    set_cell_value (a blank is set as None) and the formula is evaluated after each: -> [(value, spy log)]"""
+    set_cell_value (a blank is set as None) and the formula is evaluated after each: -> [(value, spy log)].
+    start: the cells hold 0 to begin with, or ('absent') the model does not store them at all before they are first set"""
     L = xl.lib()
     log = []
 
@@ -71,7 +72,7 @@ def evaluate_reused(text, asgs):
     out = []
 
     def fn():
-        model, ev = xl.build_model({a: ('value', 0) for a in CELLS}, {'Sheet1!Z1': text, 'Sheet1!Q1': '=Q1+1'})
+        model, ev = xl.build_model({a: ('value', 0) for a in CELLS} if start == 'zeros' else {}, {'Sheet1!Z1': text, 'Sheet1!Q1': '=Q1+1'})
         ev.namespace['SPY'] = SPY
         for asg in asgs:
             for a, v in zip(CELLS, asg):
@@ -144,15 +145,52 @@ def twin_worker(groups):
 def reuse_worker(groups):
     out = {'n': 0, 'dis': []}
     for text, items in groups:
-        obs = evaluate_reused(text, [ASSIGN[g - 1] for g, _, _ in items])
+      for start in ('zeros', 'absent'):
+        obs = evaluate_reused(text, [ASSIGN[g - 1] for g, _, _ in items], start)
         for (g, outs, kind), (val, log) in zip(items, obs):
             out['n'] += 1
             ok = admissible(val, log, outs)
             if ok is False:
-                out['dis'].append({'case': {'formula': text, 'cells': ASSIGN[g - 1], 'kind': kind, 'reused_model': True,
+                out['dis'].append({'case': {'formula': text, 'cells': ASSIGN[g - 1], 'kind': kind, 'reused_model': True, 'cells_at_start': start,
                                             'assignments_before': [x[0] for x in items[:[x[0] for x in items].index(g)]]},
                                    'exp': outs, 'obs': {'value': val, 'spy_log': log},
                                    'features': {'kind': kind, 'clause': 'reused-model', 'fn': text[1:text.index('(')]}})
+    return out
+
+
+def helper_events():
+    """AND / OR over plain single-cell REFERENCES to formula cells whose values are results of functions (IF with an omitted
+    branch, the IS* functions, COUNTA, NOT, a comparison): a logical value reached through a reference is a logical value"""
+    from harness import syntax as S
+    helpers = [S.call('ISNUMBER', [S.ref(1, 2)]), S.call('IF', [S.ref(1, 2), {'k': 'bool', 'v': True}]), S.call('COUNTA', [S.ref(1, 2)]),
+               S.call('ISBLANK', [S.ref(1, 2)]), S.call('NOT', [S.ref(1, 2)]), S.bin_('>', S.ref(1, 2), S.num('0')), S.call('ISTEXT', [S.ref(1, 2)])]
+    vals = [True, False, 5, 0, None]
+    return [{'f': f, 'helper': h, 'a1': a1, 'a2': a2, 'first': first} for f in ('AND', 'OR') for h in helpers for a1 in vals for a2 in vals for first in (0, 1)]
+
+
+def record_helper(chunk):
+    from harness import syntax as S
+    L = xl.lib()
+    out = []
+    for e in chunk:
+        args = [S.ref(1, 1), S.ref(3, 1)] if e['first'] == 0 else [S.ref(3, 1), S.ref(1, 1)]
+        ast = S.call(e['f'], args)
+        d = {'Sheet1!C1': S.formula(e['helper']), 'Sheet1!Z1': S.formula(ast)}
+        for a, v in (('Sheet1!A1', e['a1']), ('Sheet1!A2', e['a2'])):
+            if v is not None:
+                d[a] = v
+        try:
+            res = xl.to_abs(L.Evaluator(L.ModelCompiler().read_and_parse_dict(d)).evaluate('Sheet1!Z1'))
+        except BaseException as ex:      # noqa
+            if isinstance(ex, (KeyboardInterrupt, SystemExit)):
+                raise
+            res = {'t': 'exc', 'cls': type(ex).__name__}
+        cells = [{'sheet': 'Sheet1', 'col': 3, 'row': 1, 'ast': e['helper']}]
+        for (c, r), v in (((1, 1), e['a1']), ((1, 2), e['a2'])):
+            if v is not None:
+                cells.append({'sheet': 'Sheet1', 'col': c, 'row': r, 'v': xl.to_abs(v)})
+        out.append({'ast': ast, 'sheet': 'Sheet1', 'names': [], 'res': res, 'addr': 'Sheet1!Z1', 'cells': cells,
+                    'text': f"{S.formula(ast)} with C1 {S.formula(e['helper'])}, A1 = {e['a1']!r}, A2 = {e['a2']!r}"})
     return out
 
 
@@ -297,6 +335,14 @@ def run(run):
             run.disagree('logic', d['case'], d['exp'], d['obs'], d['features'], clause='order-in-process')
     run.evaluations += nord
     run.notes['ordered_process_evaluations'] = nord
+    # AND / OR over references to formula cells holding results of functions (TLC-judged events with their closure)
+    from harness import evalrec
+    he = [e for part in pool.pmap(record_helper, helper_events(), nchunks=8) for e in part]
+    hv = evalrec.validate(run, he, name='helpers', kind='logical-through-reference')
+    run.evaluations += len(he)
+    run.notes['logical_through_reference_events'] = dict(hv)
+    if hv.get('ok', 0) < len(he) // 2:
+        raise xl.MachineryError(f'logical-through-reference events: too few judged ({dict(hv)})')
     run.rule = ('18 conditions (constants, numbers, blank cell, references under 4 truth assignments, comparisons, nested AND/OR/NOT/IF, '
                 'error values) x 6 branch expressions (constants, references, SPY, nested IF with spies) in both branches and in the '
                 'two-argument form; poisoned branches (unknown function, circular reference, 1/0) on either side; AND/OR of arity 1-3 '
